@@ -69,13 +69,17 @@ def generate(seed, tier, index):
             steps.append({"op": "rm_uuid", "id": rng.randrange(ncb)})
         elif r < 0.24 and ncb:
             steps.append({"op": "rm_callback", "id": rng.randrange(ncb)})
-        elif r < 0.34:
+        elif r < 0.3:
+            # the application assigns a new value (pending until submit) while updates keep arriving
+            steps.append({"op": "assign_pending", "device": rng.choice(["DA", "DB"]), "vector": rng.choice(["P1", "P2", "P3"]),
+                          "element": rng.choice(["E1", "E2", "E3"]), "value": rng.choice(["same", "7", "On", "t1"]), "submit": rng.random() < 0.3})
+        elif r < 0.38:
             # a pending waitforevent sits in the callback list like any other callback and removes itself when it completes
             steps.append({"op": "wait", "device": rng.choice([None, "DA"]), "vector": rng.choice([None, None, "P1"]),
                           "type": rng.choice(["Value", "State", "Base"])})
             if rng.random() < 0.7:
                 steps.append(reg())
-        elif r < 0.4:
+        elif r < 0.44:
             steps.append({"op": "rm_criteria", "device": rng.choice([None, "DA", "DB"]), "vector": rng.choice([None, None, "P1"]),
                           "element": rng.choice([None, None, "E1"]), "type": rng.choice([None, None, "Value", "Base"])})
         steps.append({"op": "msg", "spec": s, "style": library_style() if rng.random() < 0.5 else rand_style(rng)})
@@ -234,6 +238,22 @@ def execute(scen):
                 sim.do(lambda: client.rmonevent(uuid=c["uuid"]))
                 c["removed_at"] = msg_index[0]
                 probes["removed_by_uuid"] = probes.get("removed_by_uuid", 0) + 1
+            elif op == "assign_pending":
+                dev = client.get_device(st["device"])
+                vec = dev.get_vector(st["vector"]) if dev else None
+                el = vec.get_element(st["element"]) if vec else None
+                if el is None or type(vec).__name__ in ("BLOBVector", "LightVector"):
+                    continue
+
+                def assign():
+                    el.value = st["value"]
+                    if st["submit"]:
+                        try:
+                            vec.submit()
+                        except Exception:
+                            pass  # a value the client API refuses for this kind: irrelevant here
+                sim.do(assign)
+                probes["pending_client_assignment"] = probes.get("pending_client_assignment", 0) + 1
             elif op == "wait":
                 kw = {"event_type": TYPES[st["type"]], "check": (lambda ev: True), "polling_enabled": False}
                 for k in ("device", "vector"):
